@@ -233,6 +233,7 @@ pub fn lockstep(emu: &mut Emu, prog: &Prog, opts: &LsOpts, ctl: &mut dyn FnMut(&
                 (Outcome::AccessFault(_), EmuResult::Err(_)) | (Outcome::Reject(_), EmuResult::Err(_)) => None,
                 (Outcome::AccessFault(a), other) => Some(format!("step {}: access to {:06x} must fail, observed {}", idx, a, other.kind())),
                 (Outcome::Reject(m), other) => Some(format!("step {}: {} must be rejected, observed {}", idx, m, other.kind())),
+                (Outcome::FetchFault, EmuResult::Ok(_)) => Some(format!("step {}: instruction fetch outside mapped memory must be an error, the step succeeded", idx)),
                 (Outcome::Unspecified(_), _) | (Outcome::FetchFault, _) => None,
             }
         };
